@@ -104,7 +104,7 @@ func init() {
 				if u("ff", 4) == 0 {
 					pp["fsfault"] = []string{"missing", fmt.Sprintf("eio:%d", u("eo", 20000)), fmt.Sprintf("short:%d", 1+u("sr", 100)), "empty-file"}[u("fk", 4)]
 				}
-				s := &k.Spec{Params: pp}
+				s := &k.Spec{Seed: sd, Params: pp}
 				if u("noise", 3) == 0 {
 					swarm(s, "client.go:SecureConfig.Check,client.go:Client.Start")
 				}
